@@ -127,6 +127,8 @@ def configs(tier):
         for use_pca in (False, True):
             add("h_cross", f"CPCCA|alpha={alpha}|pca={int(use_pca)}", cls="CPCCA", n=4, p=2, q=2, k=2, alpha=alpha, use_pca=use_pca)
     add("h_cross", "CPCCA|alpha=[0.5,1.0]|p3q2", cls="CPCCA", n=5, p=3, q=2, k=2, alpha=[0.5, 1.0], use_pca=False)
+    add("h_cross", "CPCCA|alpha=0.5|pca=[0,1]", cls="CPCCA", n=4, p=2, q=2, k=2, alpha=0.5, use_pca=[False, True])  # per-field flags
+    add("h_cross", "MCA|pca=[1,0]", cls="MCA", n=4, p=2, q=2, k=2, use_pca=[True, False])
     add("h_cross", "CPCCA|alpha=0.5|normalized", cls="CPCCA", n=4, p=2, q=2, k=2, alpha=0.5, use_pca=False, normalized=True)
     for cls in ("MCA", "CCA", "RDA"):
         add("h_cross", f"{cls}|pca=0", cls=cls, n=4, p=2, q=2, k=2, use_pca=False)
